@@ -149,7 +149,7 @@ func verifyFunction(w *World, specs *Specs, ct *Contract, inst map[string]string
 		}
 	}
 	st := &State{env: map[types.Object]Val{}, gh: map[string]Val{}}
-	entry := &SpecEnv{names: map[string]Val{}, pkg: src.Pkg.Types, typeArgs: typeArgs}
+	entry := &SpecEnv{names: map[string]Val{}, pkg: src.Pkg.Types, typeArgs: typeArgs, macros: ct.macros()}
 	bind := func(v *types.Var, kind string) {
 		if v == nil {
 			return
@@ -202,9 +202,6 @@ func verifyFunction(w *World, specs *Specs, ct *Contract, inst map[string]string
 		for i, r := range ex.results {
 			outs = append(outs, InputVar{Name: fmt.Sprintf("r%d", i), Term: r.T, Type: r.Ty})
 		}
-		for _, l := range ct.Lets {
-			post.names[l.Name] = f.specEvalIn(ex.st, l.Expr, post)
-		}
 		for _, e := range ct.Ensures {
 			t := f.specBool(ex.st, e.Expr, post)
 			o := f.oblige(ex.st, "ensures", fmt.Sprintf("%s@exit%d", e.Label, ei), t, ex.pos, e.Src)
@@ -228,7 +225,7 @@ func verifyFunction(w *World, specs *Specs, ct *Contract, inst map[string]string
 // postEnv: parameters name their entry values, except pointer parameters and the receiver, which name
 // the exit state; old(...) reaches the entry state.
 func (f *Frame) postEnv(ex *Exit, entry *SpecEnv, sig *types.Signature) *SpecEnv {
-	post := &SpecEnv{names: map[string]Val{}, old: entry, pkg: entry.pkg, typeArgs: entry.typeArgs, st: ex.st}
+	post := &SpecEnv{names: map[string]Val{}, old: entry, pkg: entry.pkg, typeArgs: entry.typeArgs, st: ex.st, macros: entry.macros}
 	for k, v := range entry.names {
 		post.names[k] = v
 	}
